@@ -224,6 +224,19 @@ def nSubmits {α : Type} : List (Op α) → Nat
   | .submit _ _ _ _ :: r => nSubmits r + 1
   | _ :: r => nSubmits r
 
+/-- round 5c: the *exact* number of steps an error-free run still executes: one per remaining
+call of `master()`, the `terminate()` of `run()`, and, with slaves, one `serve()` iteration per
+`submit_call` still to come, one per slave for the terminate tuple, one per message waiting in a
+channel master → slave -/
+def stepsLeft {α β : Type} (st : State α β) : Nat :=
+  (if st.finished = true ∨ st.err.isSome = true then 0
+    else st.prog.length + 1 + (if st.available = true then nSubmits st.prog + (st.size - 1) else 0)) +
+    inboxTotal st
+
+/-- round 5c: the exact step count of a completed error-free run of `prog` on `size` ranks -/
+def exactSteps {α : Type} (size : Nat) (prog : List (Op α)) : Nat :=
+  if 2 ≤ size then prog.length + nSubmits prog + size else prog.length + 1
+
 /-- no rank can move -/
 def quiescent {α β : Type} (f : α → β) (st : State α β) : Prop := ∀ c, step f st c = none
 
